@@ -234,7 +234,13 @@ def pack (fs : FS) (cwd : Str) (o : PackOpts) (src : Str) : PState × PResult :=
   let empty : PState := { entries := [], pmeta := { files := [], size := 0 } }
   -- `os.Lstat(src)`: a trailing slash makes the kernel follow a final symlink
   let rootInfo : Except Errno Node :=
-    if hasSuffix src ['/'] ∧ src ≠ ['/'] then (fs.stat (pathAbs cwd src)).map (·.2) else fs.lstat (pathAbs cwd src)
+    if hasSuffix src ['/'] ∧ src ≠ ['/'] then
+      -- with a trailing slash the name must denote a directory (ENOTDIR otherwise)
+      match fs.stat (pathAbs cwd src) with
+      | .ok (_, .dir pm mt) => .ok (.dir pm mt)
+      | .ok _ => .error .enotdir
+      | .error e => .error e
+    else fs.lstat (pathAbs cwd src)
   match rootInfo with
   | .error _ => (empty, .ioerr)
   | .ok info =>
